@@ -501,6 +501,9 @@ pub struct RecUv {
     pub presence_enabled: bool,
     pub verification_enabled: Option<bool>,
     pub actor: usize,
+    /// one-shot: a credential that arrives in the given store while the user is being asked (a sync
+    /// from another device, another tab finishing a registration)
+    pub arrives_during_check: Arc<Mutex<Option<(RecStore, Passkey)>>>,
 }
 
 impl RecUv {
@@ -511,7 +514,11 @@ impl RecUv {
             presence_enabled: true,
             verification_enabled,
             actor: 0,
+            arrives_during_check: Default::default(),
         }
+    }
+    pub fn set_arrival_during_check(&self, store: RecStore, p: Passkey) {
+        *self.arrives_during_check.lock().unwrap() = Some((store, p));
     }
     pub fn ok(log: Arc<Log>) -> Self {
         RecUv::new(log, UvOutcome::Check { presence: true, verification: true }, Some(true))
@@ -552,6 +559,9 @@ impl UserValidationMethod for RecUv {
             (o, g.yields, g.spin)
         };
         let shown = credential.map(|c| c.credential_id.to_vec());
+        if let Some((store, p)) = self.arrives_during_check.lock().unwrap().take() {
+            store.insert_raw(p);
+        }
         YieldN(y).await;
         for _ in 0..spin {
             std::thread::yield_now();
@@ -593,14 +603,21 @@ pub struct RecTld {
     pub log: Arc<Log>,
     /// extra private suffix rules (plain rules only), consulted before the default list
     pub private: Arc<Vec<String>>,
+    /// which error variant a refusal is reported with: 0 = whatever the list lookup says,
+    /// 1 = InvalidPublicSuffix, 2 = EmptyLabel, 3 = CannotDeriveETldPlus1 (a provider is free to choose)
+    pub err_variant: u8,
 }
 
 impl RecTld {
     pub fn default_list(log: Arc<Log>) -> Self {
-        RecTld { log, private: Arc::new(vec![]) }
+        RecTld { log, private: Arc::new(vec![]), err_variant: 0 }
     }
     pub fn with_private(log: Arc<Log>, rules: Vec<String>) -> Self {
-        RecTld { log, private: Arc::new(rules) }
+        RecTld { log, private: Arc::new(rules), err_variant: 0 }
+    }
+    pub fn reporting_errors_as(mut self, variant: u8) -> Self {
+        self.err_variant = variant;
+        self
     }
 }
 
@@ -635,7 +652,12 @@ impl public_suffix::EffectiveTLDProvider for RecTld {
             }
         })();
         self.log.push(0, Ev::Tld { query: domain.to_string(), ok: res.is_ok() });
-        res
+        res.map_err(|e| match self.err_variant {
+            1 => Error::InvalidPublicSuffix,
+            2 => Error::EmptyLabel,
+            3 => Error::CannotDeriveETldPlus1,
+            _ => e,
+        })
     }
 }
 
@@ -647,6 +669,9 @@ impl public_suffix::EffectiveTLDProvider for RecTld {
 pub struct VaultItem {
     pub inner: Passkey,
     pub locked: bool,
+    /// what the converted `Passkey` carries as its RP ID (a vault may file entries per RP without
+    /// repeating the RP ID in the entry, or keep it in another presentation)
+    pub rp_as_converted: Option<String>,
 }
 
 impl TryFrom<VaultItem> for Passkey {
@@ -655,7 +680,11 @@ impl TryFrom<VaultItem> for Passkey {
         if v.locked {
             Err(())
         } else {
-            Ok(v.inner)
+            let mut p = v.inner;
+            if let Some(rp) = v.rp_as_converted {
+                p.rp_id = rp;
+            }
+            Ok(p)
         }
     }
 }
@@ -665,6 +694,7 @@ impl TryFrom<VaultItem> for Passkey {
 pub struct VaultStore {
     pub inner: RecStore,
     pub locked: Arc<Mutex<std::collections::HashSet<Vec<u8>>>>,
+    pub rp_as_converted: Option<String>,
 }
 
 #[async_trait::async_trait]
@@ -678,7 +708,7 @@ impl CredentialStore for VaultStore {
     ) -> Result<Vec<VaultItem>, StatusCode> {
         let found = self.inner.find_credentials(ids, rp_id).await?;
         let locked = self.locked.lock().unwrap();
-        Ok(found.into_iter().map(|p| VaultItem { locked: locked.contains(&p.credential_id.to_vec()), inner: p }).collect())
+        Ok(found.into_iter().map(|p| VaultItem { locked: locked.contains(&p.credential_id.to_vec()), inner: p, rp_as_converted: self.rp_as_converted.clone() }).collect())
     }
 
     async fn save_credential(
